@@ -82,7 +82,7 @@ PROPS = {
  "C09": dict(tie=tie("DESC", "XMSS_KEY", "DIL_CTOR", "MNEMONIC"), assumptions=COMMON_ASSUME),
  "C10": dict(tie=tie("MNEMONIC"), assumptions=COMMON_ASSUME + ["strings.Split and Go map semantics are modelled (split on the single byte 0x20; later duplicate wins)"]),
  "C11": dict(oracle_ops=["a.xmss", "a.xmssvalid", "a.legacy", "a.legacyvalid", "a.dil", "a.dilvalid", "d.new", "d.frombytes"], tie=tie("ADDR", "DESC"), assumptions=COMMON_ASSUME + ["host byte order is little-endian"]),
- "C12": dict(tie=tie("DIL_POLY", "DIL_SCALAR"), allow_bv_decide=True, assumptions=COMMON_ASSUME),
+ "C12": dict(oracle_ops=["dl.mont", "dl.red", "dl.caddq", "dl.p2r", "dl.decomp", "dl.mkhint", "dl.usehint", "dl.chknorm"], tie=tie("DIL_POLY", "DIL_SCALAR"), allow_bv_decide=True, assumptions=COMMON_ASSUME),
  "C13": dict(tie=tie("DIL_PACK"), allow_bv_decide=True, assumptions=COMMON_ASSUME + ["bv_decide (CaDiCaL + verified LRAT checker, native evaluation) is accepted for the bit-lane identities only; its axioms are listed under coverage.axioms_by_theorem"]),
  "C14": dict(tie=tie("XMSS_VERIFY", "ADDR", "DESC", "MNEMONIC", "DIL_VERIFY", extra=["dilithium_unpackSig"]), assumptions=COMMON_ASSUME + ["'no Go runtime.Error' and 'inputs unmodified' are runtime facts: the model shows every access it makes is in range, the harness checks panic types and input buffers on every malformed call"]),
  "C15": dict(tie=[], race=True, assumptions=COMMON_ASSUME + ["Go memory model, race-freedom of x/crypto/sha3, hex, fmt on distinct objects are not modelled (partial)"]),
